@@ -28,7 +28,7 @@ Fixpoint eqm (a b : list (list float)) : bool := match a, b with [], [] => true 
 
 def correspond(ctx):
     rng, tier = ctx["rng"], ctx["tier"]
-    n = 14 if tier == "quick" else 120
+    n = 14 if tier == "quick" else 240
     cases, meta = [], []
     for k in range(n):
         cfg = scc.gen_config(rng, "small" if tier == "quick" or k % 3 else "large")
